@@ -340,6 +340,11 @@ theorem eval_congr (v v' : Val) : ∀ a : Sym, (∀ p ∈ a.paths, v.leafAt p = 
     have ih := eval_congr v v' a (fun p hp => h p (by simpa [Sym.paths] using hp))
     unfold Sym.eval
     split <;> simp_all
+  | .app2 fn a b, h => by
+    have iha := eval_congr v v' a (fun p hp => h p (by simp [Sym.paths, hp]))
+    have ihb := eval_congr v v' b (fun p hp => h p (by simp [Sym.paths, hp]))
+    unfold Sym.eval
+    split <;> simp_all
 
 mutual
 theorem pmap_congr {α β : Type} (f f' : α → β) : ∀ v : PVal α, (∀ a ∈ v.leaves, f a = f' a) → v.map f = v.map f'
